@@ -76,6 +76,12 @@ MUTATIONS: list[tuple[str, list[str], str, list]] = [
     ("M14", ["C04"], "_handle_simulation_results: every segment records the FIRST segment's parameter dict (stale raw_parameters)",
      [(SIM, "                self.simulation_parameters.append(self.model.get_parameter_values())",
        "                self.simulation_parameters.append(\n                    self.simulation_parameters[0] if self.simulation_parameters else self.model.get_parameter_values()\n                )", 1)]),
+    # --- added in the deepening pass (caller-owned arrays; refined steady-state guard)
+    ("M15", ["C04"], "simulate_time_course: np.array -> np.asarray (the caller's ndarray is shifted in place after an override)",
+     [(SIM, "        time_points = np.array(time_points, dtype=float)\n\n        # Check if end is actually larger",
+       "        time_points = np.asarray(time_points, dtype=float)\n\n        # Check if end is actually larger", 1)]),
+    ("M16", ["C04"], "simulate_to_steady_state: skipfirst=False -> True (the steady-state row is dropped when results exist)",
+     [(SIM, "                rel_norm=rel_norm,\n            ),\n            skipfirst=False,", "                rel_norm=rel_norm,\n            ),\n            skipfirst=True,", 1)]),
 ]
 
 
@@ -158,7 +164,10 @@ def main() -> None:
             if args and mid not in args:
                 continue
             run_one(mid, props, what, edits, tier, log)
-    sh([str(VERIF / "check"), "--regen"], cwd=VERIF)  # Gen files back to /repo's facts
+    # Gen file of THIS area back to /repo's facts (not `./check --regen`: that rewrites every area's Gen files and can
+    # race with other engineers' runs against scratch copies)
+    sh([sys.executable, "-c", "from harness import c04; c04.gen()"], cwd=VERIF,
+       env=dict(os.environ, MXLPY_VERIF_REPO=str(REPO), PYTHONPATH=f"{REPO}/src:{VERIF}"))
 
 
 if __name__ == "__main__":
